@@ -1251,6 +1251,10 @@ func (f *frame) checkIndex(st *State, at ssa.Instruction, idx *Int, length *Int,
 	proven := idx.Lo >= 0 && length != nil && idx.Hi < length.Lo
 	if !proven && idx.Lo >= 0 && backing != nil && idx.LtLen == backing {
 		proven = true
+		if it.LenProofUsed == nil {
+			it.LenProofUsed = map[*Object]bool{}
+		}
+		it.LenProofUsed[backing] = true
 	}
 	it.Hooks.Index(st, at, idx, length, proven)
 }
